@@ -100,6 +100,21 @@ A5_RMS_FLOOR = 1e-6
 A5_MAX_DCP = 0.5
 
 
+def window_class(lo, hi):
+    """conditioning class of the window (discriminating feature for Shomate, whose Cp fit is a
+    Levenberg-Marquardt search started at 1.0 for every coefficient)"""
+    r = hi / lo
+    return 'narrow' if r < 1.05 else ('mid' if r < 1.2 else 'wide')
+
+
+def precision(cls, lo, hi):
+    """(A4 tolerance, A5 rms floor).  NASA fits are linear least squares and reach 1e-11; the
+    Shomate fit reaches 3e-9 on wide windows and 2e-7 when T_high/T_low < 1.2."""
+    if cls == 'Shomate' and window_class(lo, hi) != 'wide':
+        return 1e-4, 1e-4
+    return TOL_A4, A5_RMS_FLOOR
+
+
 # ================================================================= helpers
 def _f(x):
     """normalise a pMuTT getter result (float, 0-d or 1-element array) to float"""
@@ -647,6 +662,7 @@ def run_case(spec, ctx):
     mech0 = {'class': cls, 'ctor': ctor, 'src': kind, 'T_mid': mode}
     if cls == 'Shomate':
         mech0['units'] = spec['units']
+        mech0['win'] = window_class(lo, hi)
     if cls == 'Nasa9':
         mech0['fit_T_mid'] = bool(spec.get('fit_T_mid'))
     # ---------------- the fit (real API)
@@ -729,8 +745,10 @@ def run_case(spec, ctx):
         ctx.check('A3', all(float(ns[i].T_high) == float(ns[i + 1].T_low) for i in range(len(ns) - 1))
                   and all(float(n.T_low) < float(n.T_high) for n in ns),
                   dict(m3, what='segments contiguous'), segments=[[n.T_low, n.T_high] for n in ns])
-        want_n = spec['n_interval'] if mode != 'list' else len(tm_spec) + 1
-        ctx.check('A3', nseg == want_n, dict(m3, what='segment count'), got=nseg, want=want_n)
+        want_n = len(tm_spec) + 1 if mode == 'list' else 2 if mode == 'scalar' else \
+            spec['n_interval'] if ctor == 'from_model' else None     # from_data has no n_interval
+        if want_n is not None:
+            ctx.check('A3', nseg == want_n, dict(m3, what='segment count'), got=nseg, want=want_n)
         if mode == 'list' and not (ctor == 'from_model' and spec.get('fit_T_mid')):
             ctx.close('A3', breaks, list(tm_spec), TOL_A3, dict(m3, what='breaks=T_mid given'))
     if cls == 'Shomate':
@@ -788,7 +806,8 @@ def run_case(spec, ctx):
                 break
         if not bad:
             for name in ('CpoR', 'HoRT', 'SoR'):
-                ctx.close('A4', got[name], exp[name], TOL_A4, dict(mech, q=name), edges=edges)
+                ctx.close('A4', got[name], exp[name], precision(cls, lo, hi)[0], dict(mech, q=name),
+                          edges=edges)
     # ---------------- A5 smooth sources
     if kind in ('statmech_gas', 'statmech_ads'):
         _a5(ctx, spec, obj, src, cls, mech, T, Cp, edges, T_ref, g)
@@ -807,29 +826,46 @@ def _a5(ctx, spec, obj, src, cls, mech, T, Cp, edges, T_ref, g):
         fitcp.append(v)
     fitcp = np.array(fitcp)
     d = fitcp - Cp
-    rms = float(np.sqrt(np.mean(d ** 2)))
-    mx = float(np.max(np.abs(d)))
     fam = FAMILY[cls]
+    floor = precision(cls, edges[0], edges[-1])[1]
     try:
-        r1 = reffit.fit(fam, T, Cp, breaks)
-        # second yardstick: least squares on Cp*T^2 (the weighting NASA-9 fits use)
-        ref_rms, ref_max = r1.rms, r1.maxabs
+        res = [reffit.fit(fam, T, Cp, breaks).resid]
         if fam == 'nasa9':
-            r2 = _weighted_yardstick(T, Cp, breaks)
-            ref_rms, ref_max = max(ref_rms, r2[0]), max(ref_max, r2[1])
+            # second yardstick: least squares on Cp*T^2 (the weighting NASA-9 fits use)
+            res.append(_weighted_yardstick(T, Cp, breaks))
     except reffit.Underdetermined as e:
         ctx.inconc('A5', 'reference fit underdetermined', msg=str(e))
-        r1 = None
-    if r1 is not None:
-        m = dict(mech, part='quality')
-        ctx.check('A5', rms <= A5_RMS_FACTOR * ref_rms + A5_RMS_FLOOR, dict(m, what='rms'),
-                  rms=rms, ref_rms=ref_rms, edges=edges)
-        ctx.check('A5', mx <= max(A5_MAX_DCP, A5_RMS_FACTOR * ref_max), dict(m, what='max'),
-                  max_dCp=mx, ref_max=ref_max, edges=edges)
-        k = 'A5_rms_ratio_max_' + cls
-        ratio = rms / (ref_rms + 1e-7)
-        ctx.max_err[k] = max(ctx.max_err.get(k, 0.0), ratio)
-        ctx.max_err['A5_max_dCp_' + cls] = max(ctx.max_err.get('A5_max_dCp_' + cls, 0.0), mx)
+        res = None
+    if res is not None:
+        Tarr = np.asarray(T, dtype=float)
+
+        def judge(sel):
+            rms = float(np.sqrt(np.mean(d[sel] ** 2)))
+            mx = float(np.max(np.abs(d[sel])))
+            ref_rms = max(float(np.sqrt(np.mean(r[sel] ** 2))) for r in res)
+            ref_max = max(float(np.max(np.abs(r[sel]))) for r in res)
+            return (rms, ref_rms, rms <= A5_RMS_FACTOR * ref_rms + floor,
+                    mx, ref_max, mx <= max(A5_MAX_DCP, A5_RMS_FACTOR * ref_max))
+
+        everything = np.ones(len(Tarr), dtype=bool)
+        rms, ref_rms, ok_rms, mx, ref_max, ok_max = judge(everything)
+        culprit = 'grid'
+        if not (ok_rms and ok_max):
+            # is the excess error confined to the lowest data temperature?
+            inner = Tarr > Tarr.min()
+            j = judge(inner)
+            if j[2] and j[5]:
+                culprit = 'T_low_point'
+        m = dict(mech, part='quality', culprit=culprit)
+        ctx.check('A5', ok_rms, dict(m, what='rms'), rms=rms, ref_rms=ref_rms, edges=edges,
+                  dCp_at_T_low=float(d[int(np.argmin(Tarr))]))
+        ctx.check('A5', ok_max, dict(m, what='max'), max_dCp=mx, ref_max=ref_max, edges=edges,
+                  dCp_at_T_low=float(d[int(np.argmin(Tarr))]))
+        ratio = rms / (A5_RMS_FACTOR * ref_rms + floor)
+        if ok_rms:
+            ctx.max_err['A5_quality_rms/limit'] = max(ctx.max_err.get('A5_quality_rms/limit', 0.0), ratio)
+        if ok_max:
+            ctx.max_err['A5_quality_max_dCp'] = max(ctx.max_err.get('A5_quality_max_dCp', 0.0), mx)
     # (ii) tracking identities in integral form, across breaks
     r = random.Random(core.canon(spec) + 'a5')
     pts = {lo, hi, T_ref}
@@ -887,8 +923,8 @@ def _a5(ctx, spec, obj, src, cls, mech, T, Cp, edges, T_ref, g):
 
 
 def _weighted_yardstick(T, Cp, breaks):
-    """independent least squares on Cp*T^2 (polynomial of degree 6 in x=T/T_scale), residual
-    reported on Cp"""
+    """independent least squares on Cp*T^2 (polynomial of degree 6 in x=T/T_scale); returns the
+    residual on Cp at every data point"""
     import numpy as np
     T = np.asarray(T, float)
     Cp = np.asarray(Cp, float)
@@ -904,4 +940,4 @@ def _weighted_yardstick(T, Cp, breaks):
         nrm = np.linalg.norm(A, axis=0)
         sol = np.linalg.lstsq(A / nrm, Cp[mask] * x ** 2, rcond=None)[0] / nrm
         res[mask] = (A @ sol) / x ** 2 - Cp[mask]
-    return float(np.sqrt(np.mean(res ** 2))), float(np.max(np.abs(res)))
+    return res
